@@ -123,6 +123,16 @@ class Suite:
     def shrink(self, case):
         return []
 
+    def model_case(self, case):
+        """the line sent to the Lean driver (default: the case itself)"""
+        return case
+
+    def view(self, result):
+        """the part of the implementation's result that is compared with the model's output"""
+        if isinstance(result, dict) and "model" in result and "obs" in result:
+            return result["model"]
+        return result
+
     def setup(self):
         pass
 
